@@ -172,7 +172,7 @@ def nary_map(form):
 
 def run(tier, seed):
     ctx = core.Ctx(PID, tier, seed, LEVEL)
-    n = 15000 if tier == "quick" else core.share(300000)
+    n = 15000 if tier == "quick" else core.share(2400000)
     legs = ["dev"] if tier == "quick" else ["dev", "release"]
     ctx.rule = ("random argument tuples per library procedure (lists to length 12, nesting to 3, improper tails where the specification allows them, indices "
                 "-1..len+1, too-short lists for c[ad]{2,3}r / list-tail / list-ref / last-pair, ticking procedure arguments) and random compositions of library "
